@@ -568,7 +568,7 @@ impl Ctx {
                     V::Iter(_) => "for:iter",
                     _ => "for:other",
                 });
-                let iter_line = self.cur_line();
+                let iter_line = if s.aux_line.get() != 0 { s.aux_line.get() } else { line };
                 let iter = self.invoke(&iterable, "iter", vec![], iter_line)?;
                 let env2 = cons(&self.sh, env, var, V::Nil);
                 let cell = env2.as_ref().unwrap().cell.clone();
@@ -607,7 +607,7 @@ impl Ctx {
             }
             StmtKind::Throw(e) => {
                 let v = self.eval(e, env, sc)?;
-                self.set_line(line);
+                self.set_line(if s.aux_line.get() != 0 { s.aux_line.get() } else { line });
                 self.sh.event("throw_stmt");
                 return Err(self.throw_value(v));
             }
